@@ -453,6 +453,9 @@ def run_circuit(ctx: Ctx, case: CircuitCase, rng, state: dict, *, max_out: int, 
             complete = False
             continue
         weights[ci] = r
+        if len(r[0]) != 2 ** int(np.asarray(comp.f_selection).shape[0]):
+            complete = False      # f-assignments were subsampled: the joint-mode comparison needs every row
+            ctx.cov["joint_skipped_subsampled_f"] = ctx.cov.get("joint_skipped_subsampled_f", 0) + 1
         if n >= 1 and jit_done < jit_cap and (n >= 2 or jit_done == 0) and n <= 8:
             compare_paths(ctx, case, ci, comp, num_f, rng, state)
             jit_done += 1
@@ -592,10 +595,10 @@ def run(ctx: Ctx) -> int:
 
     plan = []   # (nq, detectors, max_out, out_cap, do_joint)
     if quick:
-        sizes = [1, 2, 3, 3, 4, 4, 5, 6, 6, 8, 8, 10, 12, 16, 20, 24, 32, 40, 40]
+        sizes = [1, 2, 3, 3, 4, 4, 5, 6, 6, 8, 8, 10, 12, 16, 20, 24, 32, 40]
         max_out = 12
     else:
-        sizes = [1, 2, 2, 3, 3, 3, 4, 4, 4, 5, 5, 6, 6, 6, 8, 8, 8, 10, 10, 12, 12, 14, 16, 16, 20, 24, 24, 32, 40, 40] * 3
+        sizes = [1, 2, 2, 3, 3, 3, 4, 4, 4, 5, 5, 6, 6, 6, 8, 8, 8, 10, 10, 12, 12, 14, 16, 16, 20, 24, 24, 32, 40, 40] * 2
         max_out = 16
     for i, nq in enumerate(sizes):
         plan.append((nq, (i % 4 == 3), max_out, (max_out if nq > 2 else 8), nq <= 8))
@@ -617,10 +620,12 @@ def run(ctx: Ctx) -> int:
             ctx.broken.append(f"harness:exception on circuit {case.key}: {e!r}")
         ctx.log(f"circuit {case.key} qubits={_num_qubits(case.text)} det={int(case.detectors)} evaluations={ctx.evaluations - _e} t={_time.time() - _t:.1f}s")
         # every compiled graph is its own XLA executable; drop them so that long runs do not exhaust the process's memory maps
-        import gc
-        import jax
-        jax.clear_caches()
-        gc.collect()
+        _done = state["circuits_done"] = state.get("circuits_done", 0) + 1
+        if _done % 8 == 0:
+            import gc
+            import jax
+            jax.clear_caches()
+            gc.collect()
     ctx.cov["circuits"] = len(cases)
     if model_usable and not ctx.violations:
         try:
